@@ -35,9 +35,35 @@ type OpSpec struct {
 
 // Case is one driver-1 workload.
 type Case struct {
-	Seed uint64   `json:"seed"`
-	Root string   `json:"root"`
-	Ops  []OpSpec `json:"ops"`
+	Seed uint64 `json:"seed"`
+	Root string `json:"root"`
+	// RootSpell is how the root is written when the wrapper is made ("" = as Root): the same
+	// directory with a trailing slash, dot segments, doubled slashes or a detour through ".."
+	RootSpell string   `json:"root_spelling,omitempty"`
+	Ops       []OpSpec `json:"ops"`
+}
+
+// SpellRoot returns an absolute, lexically unclean spelling of the clean absolute path root.
+func SpellRoot(r *core.Rand, root string) string {
+	segs := strings.Split(strings.Trim(root, "/"), "/")
+	if root == "/" {
+		return []string{"//", "/.", "/x/..", "/./"}[r.Intn(4)]
+	}
+	switch r.Intn(7) {
+	case 0:
+		return root + "/"
+	case 1:
+		return root + "/."
+	case 2:
+		return "/./" + strings.Join(segs, "/./")
+	case 3:
+		return "//" + strings.Join(segs, "//")
+	case 4:
+		return root + "/sub/.."
+	case 5:
+		return "/../" + strings.Join(segs, "/")
+	}
+	return "/other/../" + strings.Join(segs, "/")
 }
 
 var allOps = []string{"Create", "Mkdir", "MkdirAll", "Open", "OpenFile", "Remove", "RemoveAll", "Rename", "Stat", "Chmod", "Chown", "Chtimes", "ReadFile", "WriteFile", "Readdir"}
@@ -94,6 +120,9 @@ func genPath(r *core.Rand) string {
 func GenCase(seed uint64) *Case {
 	r := core.NewRand(seed)
 	c := &Case{Seed: seed, Root: roots[r.Intn(len(roots))]}
+	if r.Chance(0.25) {
+		c.RootSpell = SpellRoot(r, c.Root)
+	}
 	n := r.Range(1, 30)
 	faultRate := []float64{0, 0, 0.05, 0.2}[r.Intn(4)]
 	var recent []string
@@ -330,7 +359,12 @@ func RunCase(c *Case, cnt core.Counters) []V {
 	populate(disk, c.Root)
 	populate(shadow, c.Root)
 	shadow.Record = false
-	chroot := syslutil.NewChrootFs(disk, c.Root)
+	rootArg := c.Root
+	if c.RootSpell != "" {
+		rootArg = c.RootSpell
+		cnt.Inc("cases_with_unclean_root_spelling")
+	}
+	chroot := syslutil.NewChrootFs(disk, rootArg)
 
 	var curFault syscall.Errno
 	var faultUsed bool
